@@ -11,6 +11,7 @@
 //                   = HMAC-SHA256(secret of client #key, latest / previous challenge the client received on connection d)
 //        mal <c> | emp <c>                not-JSON payload | empty payload
 //        ban <ip> | unban <ip> | bl <ip> | unbl <ip> | refill <ip>
+//        banp <ip> | bans <ip>            permanent ban | temporary ban that has lapsed before the next event
 //        blr <g> | unblr <g>               blacklist / remove the CIDR range g (covers addresses 2g and 2g+1)
 //        restart                          a new IPManager over the same storage replaces the live one
 //        exp <k> | del <k> | strip <k>    credential expiry | config deleted | config without encrypted key
@@ -602,6 +603,19 @@ func (st *stack) step(ev []string) (string, error) {
 		}
 		st.ipm.RemoveFromBlacklist(rangeStr(g))
 		return "-", nil
+	case "banp", "bans":
+		i, err := argn(1)
+		if err != nil || i < 0 {
+			return "", fmt.Errorf("bad event %v", ev)
+		}
+		if ev[0] == "banp" {
+			st.bfp.BanIP(ipStr(i), 0, "verif-permanent")
+		} else {
+			// a temporary ban whose duration has run out by the time anybody looks again
+			st.bfp.BanIP(ipStr(i), time.Nanosecond, "verif-short")
+			time.Sleep(20 * time.Microsecond)
+		}
+		return "-", nil
 	case "ban", "unban", "bl", "unbl", "refill":
 		i, err := argn(1)
 		if err != nil {
@@ -772,7 +786,7 @@ func alphabet() []string {
 			fmt.Sprintf("mal %d", c),
 		)
 	}
-	a = append(a, "ban 0", "unban 0", "bl 0", "exp 0", "blr 0", "restart", "wl 0", "issue fail")
+	a = append(a, "ban 0", "unban 0", "bl 0", "exp 0", "blr 0", "restart", "wl 0", "issue fail", "banp 0", "bans 0")
 	return a
 }
 
@@ -939,7 +953,7 @@ func genRandom(r *vc.Rand, n int, emit func(string, string)) {
 			case x < 79:
 				evs = append(evs, fmt.Sprintf("emp %d", c))
 			case x < 82:
-				evs = append(evs, fmt.Sprintf("%s %d", vc.Pick(r, []string{"ban", "unban", "ban", "unban", "bl", "unbl"}), r.Intn(nip)))
+				evs = append(evs, fmt.Sprintf("%s %d", vc.Pick(r, []string{"ban", "unban", "ban", "unban", "bl", "unbl", "banp", "bans", "bans"}), r.Intn(nip)))
 			case x < 84:
 				switch r.Intn(4) {
 				case 0:
